@@ -18,7 +18,7 @@ import torch.nn.functional as F
 from exact import FMT, FMT_NAME, limbs, to_fractions
 from isolate import run_isolated
 from optimum.quanto import (Calibration, QBitsTensor, QBytesTensor, QTensor, absmax_scale, freeze, qtypes, quantize,
-                            quantize_activation, requantize, safe_load, safe_save)
+                            quantize_activation, quantize_weight, requantize, safe_load, safe_save)
 from optimum.quanto.nn import QModuleMixin
 from torch.nn.modules import module as tmod
 from torch.overrides import _get_current_function_mode_stack
@@ -281,7 +281,15 @@ def float_forward(m, x, w, b):
 def recipe_event(m, name, xin, yout):
     """reference: float module with the dequantized quantized weight on the (de)quantized input"""
     aq = m.activation_qtype
-    w = m.qweight
+    # the weight the statement prescribes: frozen -> the stored quantized weight; otherwise the CURRENT float weight quantized
+    # now (independently of whatever the module may have kept from earlier forwards)
+    if m.weight_qtype is None:
+        w = None
+    elif isinstance(m.weight, QTensor):
+        w = m.weight
+    else:
+        with torch.no_grad():
+            w = quantize_weight(m.weight.detach(), qtype=m.weight_qtype, axis=0, group_size=m.weight_group_size, optimizer=m.optimizer)
     wdq = w.dequantize() if w is not None else m.weight
     if isinstance(xin, QBytesTensor):
         if aq is not None and not (xin.qtype == aq and xin.axis is None):
@@ -541,10 +549,19 @@ class Runner:
                 for bn in ("input_scale", "output_scale"):
                     b = getattr(m, bn)
                     grads.append({"name": name, "param": bn, "has_grad": b.grad is not None, "frozen": False, "requires_grad": bool(b.requires_grad), "scale": True})
+        # the update itself, in the styles optimizers and training scripts use: in place under no_grad, through .data (no
+        # version bump), or by copying new values into the parameter
+        via = a.get("via", "inplace")
         with torch.no_grad():
             for p in self.model.parameters():
                 if p.grad is not None and not isinstance(p.data, QTensor):
-                    p.add_(-0.05 * p.grad.sign().to(p.dtype) * 0.25)
+                    step = -0.05 * p.grad.sign().to(p.dtype) * 0.25
+                    if via == "data":
+                        p.data.add_(step)
+                    elif via == "copy":
+                        p.data.copy_(p.data + step)
+                    else:
+                        p.add_(step)
         for p in self.model.parameters():
             p.grad = None
         ev["grads"] = grads
